@@ -4,6 +4,9 @@ import (
 	"encoding/json"
 	"fmt"
 	"math/rand"
+	"os"
+	"strconv"
+	"strings"
 
 	"github.com/aclements/go-moremath/graph"
 	"github.com/aclements/go-moremath/graph/graphalg"
@@ -206,6 +209,8 @@ func c18GenMarks(tier string, rng *rand.Rand, emit func(interface{})) {
 		set := map[int]bool{}
 		var marked []int
 		var ops [][2]int
+		probe := it%2 == 0 // the state after EVERY Mark/Unmark is observed: Test of the id, Next around it
+		nprobe := 0        // probe operations do not count towards nops (the random stream is the same with and without them)
 		clamp := func(id int) int {
 			if id < 0 {
 				return 0
@@ -215,7 +220,7 @@ func c18GenMarks(tier string, rng *rand.Rand, emit func(interface{})) {
 			}
 			return id
 		}
-		for len(ops) < nops {
+		for len(ops)-nprobe < nops {
 			id := c18PickID(rng, scale, marked)
 			switch r := rng.Intn(20); {
 			case r < 8:
@@ -225,10 +230,18 @@ func c18GenMarks(tier string, rng *rand.Rand, emit func(interface{})) {
 					set[id] = true
 					marked = append(marked, id)
 				}
+				if probe {
+					ops = append(ops, [2]int{2, id}, [2]int{3, id - 1}, [2]int{3, id})
+					nprobe += 3
+				}
 			case r < 11:
 				id = clamp(id)
 				ops = append(ops, [2]int{1, id})
 				delete(set, id)
+				if probe {
+					ops = append(ops, [2]int{2, id}, [2]int{3, id - 1}, [2]int{3, -1})
+					nprobe += 3
+				}
 			case r < 15:
 				ops = append(ops, [2]int{2, id})
 			case r < 19:
@@ -252,9 +265,6 @@ func c18GenMarks(tier string, rng *rand.Rand, emit func(interface{})) {
 	}
 	// (c) ascending and descending fills across every growth boundary
 	for _, b := range c18Bounds {
-		if !thorough && b > 40000 {
-			continue
-		}
 		var up, down [][2]int
 		for d := -2; d <= 2; d++ {
 			up = append(up, [2]int{0, b + d}, [2]int{2, b + d}, [2]int{3, b + d - 1}, [2]int{3, -1})
@@ -264,6 +274,55 @@ func c18GenMarks(tier string, rng *rand.Rand, emit func(interface{})) {
 		}
 		emit(c18Case{Op: 1, Ops: up})
 		emit(c18Case{Op: 1, Ops: down})
+	}
+	// (d) growth by more than one doubling from a non-empty small set (the old words must survive), then
+	//     Unmark of the far id, a second far Mark, and Unmark beyond the storage of a fresh set
+	for _, a := range []int{0, 31, 992, 1023} {
+		for _, b := range c18Bounds {
+			if b < 2048 {
+				continue
+			}
+			emit(c18Case{Op: 1, Ops: [][2]int{{0, a}, {0, b - 1}, {2, a}, {3, -1}, {3, a}, {2, b - 1}, {3, b - 2}, {3, b - 1},
+				{1, b - 1}, {2, b - 1}, {3, a}, {2, a}, {0, b}, {3, a}, {1, a}, {3, -1}, {2, a}, {1, b}, {3, -1}}})
+		}
+	}
+	for _, b := range c18Bounds {
+		emit(c18Case{Op: 1, Ops: [][2]int{{1, b}, {2, b}, {3, -1}, {3, b - 1}, {0, 5}, {1, b + 31}, {2, 5}, {3, -1}, {3, 5},
+			{0, b}, {1, 2*b + 64}, {2, b}, {3, 5}, {1, b}, {3, 5}, {2, b}}})
+	}
+	// (e) Test/Next are defined for every int: negative and extreme arguments on a non-empty set
+	//     (Next(math.MaxInt) once returned the smallest mark: i++ overflowed; corpus/C18/next-maxint.jsonl)
+	const maxInt = int(^uint(0) >> 1)
+	for _, x := range []int{-1, -2, -31, -32, -33, -63, -64, -65, -1023, -1024, -1025, -(1 << 22), -(1 << 40), -maxInt, -maxInt - 1,
+		1 << 22, 1 << 40, maxInt - 32, maxInt - 1, maxInt} {
+		for _, first := range []int{0, 1, 31, 33, 1023} {
+			emit(c18Case{Op: 1, Ops: [][2]int{{2, x}, {3, x}, {0, first}, {2, x}, {3, x}, {0, 1500}, {2, x}, {3, x}, {1, first}, {3, x}, {2, x}}})
+		}
+	}
+	emit(c18Case{Op: 1, Ops: [][2]int{{0, 7}, {2, maxInt}, {2, -maxInt - 1}, {3, maxInt - 1}, {3, -maxInt - 1}}})
+	// (f) word sweeps: one bit position in EVERY word up to id 4500 (ascending: the storage grows step by step;
+	//     descending: it grows once), each Mark probed at both ends of its word and by the scans around it
+	for _, bit := range []int{0, 31, 17} {
+		for _, desc := range []bool{false, true} {
+			var ops [][2]int
+			for k := 0; k <= 140; k++ {
+				w := k
+				if desc {
+					w = 140 - k
+				}
+				id := 32*w + bit
+				ops = append(ops, [2]int{0, id}, [2]int{2, 32 * w}, [2]int{2, 32*w + 31}, [2]int{2, id}, [2]int{3, 32*w - 1}, [2]int{3, id},
+					[2]int{3, id - 33})
+			}
+			ops = append(ops, [2]int{3, -1})
+			for w := 0; w <= 141; w++ { // the final state, word by word
+				ops = append(ops, [2]int{2, 32*w + bit}, [2]int{2, 32*w + (bit+1)%32}, [2]int{3, 32*w + bit}, [2]int{3, 32*w - 1})
+			}
+			for w := 0; w <= 140; w += 2 { // unmark every other one and scan again
+				ops = append(ops, [2]int{1, 32*w + bit}, [2]int{2, 32*w + bit}, [2]int{3, 32*w - 1})
+			}
+			emit(c18Case{Op: 1, Ops: ops})
+		}
 	}
 }
 
@@ -649,8 +708,11 @@ func c18GenSCC(tier string, rng *rand.Rand, emit func(interface{})) {
 	thorough := tier == "thorough"
 	k := 0
 	flags := func() int { k++; return []int{3, 3, 2, 3, 1, 3, 0, 3}[k%8] }
-	emit(c18Case{Op: 3, G: [][]int{}, Flags: 3})
-	emit(c18Case{Op: 3, G: [][]int{}, Flags: 0})
+	for f := 0; f <= 3; f++ {
+		emit(c18Case{Op: 3, G: [][]int{}, Flags: f})
+		emit(c18Case{Op: 3, G: [][]int{{}}, Flags: f})
+		emit(c18Case{Op: 3, G: [][]int{{0, 0}}, Flags: f})
+	}
 	for n := 1; n <= 4; n++ {
 		for mask := uint64(0); mask < 1<<uint(n*n); mask++ {
 			g := c18MaskGraph(n, mask)
@@ -1496,10 +1558,13 @@ func c18GenDot(tier string, rng *rand.Rand, emit func(interface{})) {
 	for _, nm := range []string{"label", "color", "shape", "x", "Label", "labe", "labels"} {
 		names = append(names, toInts(nm))
 	}
+	wide := false // second block: attribute names with bytes DotString would escape (names are written raw), up to 7 attributes
 	randAttrs := func(bad bool) []c18Attr {
 		k := rng.Intn(4)
 		if rng.Intn(3) == 0 {
 			k = 0
+		} else if wide && rng.Intn(4) == 0 {
+			k = 4 + rng.Intn(4)
 		}
 		as := make([]c18Attr, k)
 		for i := range as {
@@ -1529,7 +1594,14 @@ func c18GenDot(tier string, rng *rand.Rand, emit func(interface{})) {
 	if thorough {
 		nDot = 40000
 	}
-	for k := 0; k < nDot; k++ {
+	nWide := nDot / 10
+	for k := 0; k < nDot+nWide; k++ {
+		if k == nDot {
+			wide = true
+			for _, nm := range []string{"LABEL", "", "a b", "q\"q", "b\\s", "n\nl", "\xc3\xa9", "{r}", "label ", "label"} {
+				names = append(names, toInts(nm))
+			}
+		}
 		var g [][]int
 		switch {
 		case k < 600:
@@ -1576,12 +1648,241 @@ func c18GenDot(tier string, rng *rand.Rand, emit func(interface{})) {
 	}
 }
 
+// fan: a spine 0 -> 1 -> ... -> n/2-1 whose nodes each point (twice or more) into the leaves n/2..n-1, so that
+// every leaf id is reached again after it has been visited; relabel as in c18Structured
+func c18Fan(rng *rand.Rand, n, relabel int) [][]int {
+	perm := make([]int, n)
+	for i := range perm {
+		perm[i] = i
+		if relabel == 1 {
+			perm[i] = n - 1 - i
+		}
+	}
+	if relabel == 2 {
+		rng.Shuffle(n, func(x, y int) { perm[x], perm[y] = perm[y], perm[x] })
+	}
+	g := make([][]int, n)
+	for i := range g {
+		g[i] = []int{}
+	}
+	h := n / 2
+	for i := 0; i < h; i++ {
+		for k := 2 + rng.Intn(3); k > 0; k-- {
+			g[perm[i]] = append(g[perm[i]], perm[h+rng.Intn(n-h)])
+		}
+		g[perm[i]] = append(g[perm[i]], perm[h+(2*i)%(n-h)], perm[h+(2*i+1)%(n-h)]) // every leaf is hit by the spine
+		if i+1 < h {
+			g[perm[i]] = append(g[perm[i]], perm[i+1])
+		}
+	}
+	return g
+}
+
+func c18GenExtra(tier string, rng *rand.Rand, emit func(interface{})) {
+	fanSizes := []int{1100, 4097, 5000}
+	if tier == "thorough" {
+		fanSizes = append(fanSizes, 32769, 100000)
+	}
+	for _, n := range fanSizes {
+		for relabel := 0; relabel < 3; relabel++ {
+			g := c18Fan(rng, n, relabel)
+			root := 0
+			if relabel == 1 {
+				root = n - 1
+			} else if relabel == 2 {
+				for len(g[root]) == 0 || rng.Intn(4) > 0 {
+					root = rng.Intn(n)
+				}
+			}
+			emit(c18Case{Op: 2, G: g, Roots: []int{root}})
+			emit(c18Case{Op: 3, G: g, Flags: 3})
+		}
+	}
+	// Equal / SimplifyMulti / SubgraphKeep / SubgraphRemove on structured graphs whose node ids go well beyond 1024
+	// (c18GenGraphOps stops at 1025 nodes for these four)
+	for _, n := range []int{1100, 2049, 5000} {
+		for kind := 0; kind < 6; kind++ {
+			g := c18Structured(rng, kind, n, rng.Intn(3))
+			// Equal: a change in a late node / identical / reshuffled
+			h := c18Copy(g)
+			switch kind % 3 {
+			case 0:
+				i := n - 1 - rng.Intn(n/2)
+				h[i] = append(h[i], rng.Intn(n))
+			case 1:
+				h = c18Variant(rng, h)
+				for i := range h {
+					if len(h[i]) != len(g[i]) {
+						h[i] = append([]int{}, g[i]...)
+						a := h[i]
+						rng.Shuffle(len(a), func(x, y int) { a[x], a[y] = a[y], a[x] })
+					}
+				}
+			}
+			emit(c18Case{Op: 5, G: g, G2: h})
+			// SimplifyMulti with doubled edges
+			emit(c18Case{Op: 6, G: c18Variant(rng, g)})
+			// Keep: a random half of the nodes in shuffled order with most induced edges; Remove: a tenth of the nodes, a fifth of the edges
+			v := c18Variant(rng, g)
+			var nodes []int
+			in := map[int]bool{}
+			for i := 0; i < n; i++ {
+				if rng.Intn(2) == 0 {
+					nodes = append(nodes, i)
+					in[i] = true
+				}
+			}
+			rng.Shuffle(len(nodes), func(x, y int) { nodes[x], nodes[y] = nodes[y], nodes[x] })
+			es := [][2]int{}
+			rme := [][2]int{}
+			for i := range v {
+				for j, t := range v[i] {
+					if in[i] && in[t] && rng.Intn(4) > 0 {
+						es = append(es, [2]int{i, j})
+					}
+					if rng.Intn(5) == 0 {
+						rme = append(rme, [2]int{i, j})
+					}
+				}
+			}
+			rng.Shuffle(len(es), func(x, y int) { es[x], es[y] = es[y], es[x] })
+			emit(c18Case{Op: 7, G: v, Nodes: nodes, Edges: es})
+			rm := []int{}
+			for i := 0; i < n; i++ {
+				if rng.Intn(10) == 0 {
+					rm = append(rm, i)
+				}
+			}
+			rng.Shuffle(len(rm), func(x, y int) { rm[x], rm[y] = rm[y], rm[x] })
+			emit(c18Case{Op: 8, G: v, Nodes: rm, Edges: rme})
+		}
+	}
+	rounds := 1
+	if tier == "thorough" {
+		rounds = 10
+	}
+	for round := 0; round < rounds; round++ {
+		// hubs: a few components with very many out-edges into many other components, with repeats
+		// (the component-edge lists are long and unsorted before the dedup)
+		for it := 0; it < 12; it++ {
+			n := 150 + rng.Intn(200)
+			g := make([][]int, n)
+			for i := range g {
+				g[i] = []int{}
+			}
+			for h := 0; h < 3; h++ { // hub h: a 2-cycle {2h, 2h+1} with 100..300 edges to later nodes
+				g[2*h] = append(g[2*h], 2*h+1)
+				g[2*h+1] = append(g[2*h+1], 2*h)
+				for k := 100 + rng.Intn(200); k > 0; k-- {
+					g[2*h+rng.Intn(2)] = append(g[2*h+rng.Intn(2)], 6+rng.Intn(n-6))
+				}
+			}
+			for i := 6; i < n; i++ { // the rest: a sparse DAG on later ids with some 2-cycles
+				for k := rng.Intn(3); k > 0 && i+1 < n; k-- {
+					g[i] = append(g[i], i+1+rng.Intn(n-i-1))
+				}
+				if i+1 < n && rng.Intn(6) == 0 {
+					g[i] = append(g[i], i+1)
+					g[i+1] = append(g[i+1], i)
+				}
+			}
+			emit(c18Case{Op: 3, G: g, Flags: []int{3, 2, 3, 3}[it%4]})
+		}
+		// SimplifyMulti with weights that need more than 24 significant bits: up to 2^29 with 10 fractional bits,
+		// sums of a few dozen stay exact in float64 (but not in float32)
+		for it := 0; it < 60; it++ {
+			n := 1 + rng.Intn(12)
+			g := c18RandGraph(rng, n)
+			w := make([][]F64, n)
+			for i := range g {
+				for r := rng.Intn(4); r > 0 && len(g[i]) > 0 && len(g[i]) < 40; r-- {
+					g[i] = append(g[i], g[i][rng.Intn(len(g[i]))])
+				}
+				w[i] = make([]F64, len(g[i]))
+				for j := range w[i] {
+					w[i][j] = F64(float64(rng.Intn(1<<29)-(1<<28)) + float64(rng.Intn(1024))/1024)
+				}
+			}
+			emit(c18Case{Op: 6, G: g, W: w})
+		}
+		// Equal on long adjacency lists (beyond sort's small-slice path) that differ in ONE late entry of the sorted order
+		for it := 0; it < 40; it++ {
+			n := 20 + rng.Intn(30)
+			g := make([][]int, 3)
+			for i := range g {
+				g[i] = []int{}
+				for k := 13 + rng.Intn(40); k > 0; k-- {
+					g[i] = append(g[i], rng.Intn(n))
+				}
+			}
+			for len(g) < n {
+				g = append(g, []int{})
+			}
+			h := c18Copy(g)
+			for i := range h {
+				a := h[i]
+				rng.Shuffle(len(a), func(x, y int) { a[x], a[y] = a[y], a[x] })
+			}
+			if it%4 != 0 { // raise one of the largest entries of one list: the sorted lists differ only near the end
+				i := rng.Intn(3)
+				big := 0
+				for k, v := range h[i] {
+					if v >= h[i][big] {
+						big = k
+					}
+				}
+				if h[i][big] < n-1 {
+					h[i][big]++
+				}
+			}
+			emit(c18Case{Op: 5, G: g, G2: h})
+		}
+		// SubgraphRemove / Keep around nodes with many out-edges and named removals of most of them
+		for it := 0; it < 40; it++ {
+			n := 5 + rng.Intn(20)
+			g := c18RandGraph(rng, n)
+			u := rng.Intn(n)
+			for k := 17 + rng.Intn(30); k > 0; k-- {
+				g[u] = append(g[u], rng.Intn(n))
+			}
+			rme := [][2]int{}
+			for j := range g[u] {
+				if rng.Intn(3) > 0 {
+					rme = append(rme, [2]int{u, j})
+				}
+			}
+			rm := []int{}
+			if v := rng.Intn(n); v != u && rng.Intn(2) == 0 {
+				rm = append(rm, v)
+			}
+			emit(c18Case{Op: 8, G: g, Nodes: rm, Edges: rme})
+		}
+	}
+}
+
 func c18Gen(tier string, rng *rand.Rand, emit func(interface{})) {
+	// debugging aid for mutation experiments only: VERIF_C18_OPS=1,6 runs just the cases of the listed operations
+	// (every case is still generated, so the random stream and the selected cases are those of the full run)
+	if f := os.Getenv("VERIF_C18_OPS"); f != "" {
+		sel := map[int]bool{}
+		for _, t := range strings.Split(f, ",") {
+			if v, err := strconv.Atoi(strings.TrimSpace(t)); err == nil {
+				sel[v] = true
+			}
+		}
+		inner := emit
+		emit = func(c interface{}) {
+			if cc, ok := c.(c18Case); ok && sel[cc.Op] {
+				inner(c)
+			}
+		}
+	}
 	c18GenMarks(tier, rng, emit)
 	c18GenTrav(tier, rng, emit)
 	c18GenSCC(tier, rng, emit)
 	c18GenGraphOps(tier, rng, emit)
 	c18GenDot(tier, rng, emit)
+	c18GenExtra(tier, rng, emit)
 }
 
 func init() { register(&Prop{ID: "C18", Num: 18, Gen: c18Gen, Run: c18Run}) }
